@@ -21,7 +21,7 @@ CORPUS = os.path.join(VERIF, "corpus", "C14")
 
 # finding ids this builder reported; an id that is not (yet) listed in known_findings.json is treated as an open
 # region (alarms attributed, logged as a note) and kept out of probes() until the coordinator lists it
-CANDIDATES = (L.R_CSR8, L.R_LITTLE, L.R_AXIL_RD, L.R_AXI_NARROW)
+CANDIDATES = (L.R_CSR8, L.R_LITTLE, L.R_AXIL_RD)
 
 QUICK = {"random_socs": 4, "mem": 600, "export": 500, "max_regs": 14}
 THOROUGH = {"random_socs": 90, "mem": 8000, "export": 6000, "max_regs": None}
@@ -200,8 +200,6 @@ def correspond(ctx):
         "AXI-Lite presents the bus-word address, AXI4 a narrow single beat)",
         "IRQ numbers are not exercised (cpu_type=None SoCs have no interrupt controller)",
         "CSR memories wider than the CSR bus word or deeper than a page (paged access) are outside the grid",
-        "the double-read / narrow-access behaviour of the AXI-Lite 64->32 converter is not part of the Lean model: on "
-        "axi/axi-lite SoCs with a 64-bit bus only exports and the oracle run, no hwDecode comparison",
     ]
     tol = tolerated(ctx)
     listed = {e["id"] for e in ctx.known}
@@ -258,7 +256,6 @@ def probes(ctx):
     region_probe(L.R_CSR8, W_CSR8)
     region_probe(L.R_LITTLE, W_LITTLE)
     region_probe(L.R_AXIL_RD, W_AXIL_RD)
-    region_probe(L.R_AXI_NARROW, W_AXI_NARROW)
     # fixed findings: the witness must pass now
     rec, al = _alarms(W_PAGE0)
     out.append(("C14-header-base-page0-empty", bool(al), al[0][:300] if al else "csr.h agrees with JSON and the hardware"))
@@ -266,6 +263,10 @@ def probes(ctx):
     out.append(("C14-bank-exceeds-page", verdict != "rejected", "258-word bank in a 256-word page: build verdict " + verdict))
     b, verdict = L.safe_build(W_NLOCS)
     out.append(("C14-csr-page-eq-nlocs", verdict != "rejected", "bank pinned at page n_locs=32: build verdict " + verdict))
+    rec, al = _alarms(W_AXI_NARROW)
+    al = [t for g, t in rec["alarms"] if g != L.R_AXIL_RD] + ([] if rec["verdict"] == "ok" else ["build " + str(rec["verdict"])])
+    out.append(("C14-axi-wide-bus-narrow-access-next-word", bool(al),
+                al[0][:300] if al else "narrow AXI4 accesses at odd 32-bit words reach their own register"))
     rec, al = _alarms(W_HANG)
     hang = [a for a in al if "hangs" in a] + (["%d hangs" % rec["stats"].get("hangs")] if rec["stats"].get("hangs") else [])
     out.append(("C14-axil-downconv-write-hang", bool(hang), hang[0][:300] if hang else "upper-lane stores complete"))
@@ -277,11 +278,60 @@ def probes(ctx):
 # ------------------------------------------------------------------------------------------------------------
 # failing-input search / replay
 
+def _bad_alarms(rec, tol):
+    return [t for g, t in rec["alarms"] if g is None or g not in tol]
+
+
+def shrink_soc(inp, tol, budget_s=60):
+    """Greedy reduction of a failing SoC configuration: drop RAMs, peripherals, memories, registers, options while
+    the oracle (not the model) still raises an unattributed alarm."""
+    import copy
+    t0 = time.time()
+    cfg, seed = copy.deepcopy(inp["cfg"]), inp.get("seed", 0)
+
+    def fails(c):
+        rec = L.soc_task((c, seed, None))
+        return rec["verdict"] == "ok" and bool(_bad_alarms(rec, tol))
+
+    def candidates(c):
+        for k in range(len(c.get("rams", []))):
+            d = copy.deepcopy(c); del d["rams"][k]; yield d
+        for k in range(len(c.get("periphs", []))):
+            if len(c["periphs"]) > 1:
+                d = copy.deepcopy(c); del d["periphs"][k]; yield d
+        for k, p in enumerate(c.get("periphs", [])):
+            if p.get("mems"):
+                d = copy.deepcopy(c); d["periphs"][k].pop("mems"); yield d
+            for j in range(len(p.get("regs", []))):
+                if len(p["regs"]) > 1 or p.get("mems"):
+                    d = copy.deepcopy(c); del d["periphs"][k]["regs"][j]; yield d
+            if p.get("loc") is not None:
+                d = copy.deepcopy(c); d["periphs"][k].pop("loc"); yield d
+        for key, val in (("second_master", False), ("with_ctrl", False), ("csr_origin", 0), ("ic", "shared"), ("bus_dw", 32),
+                         ("bus", "wishbone"), ("csr_aw", 14)):
+            if c.get(key) not in (val, None) or (key == "with_ctrl" and c.get(key, True)):
+                d = copy.deepcopy(c); d[key] = val; yield d
+    progress = True
+    while progress and time.time() - t0 < budget_s:
+        progress = False
+        for d in candidates(cfg):
+            if time.time() - t0 > budget_s:
+                break
+            if fails(d):
+                cfg, progress = d, True
+                break
+    rec = L.soc_task((cfg, seed, None))
+    return {"kind": "soc", "cfg": cfg, "seed": seed}, (_bad_alarms(rec, tol) or ["(alarm lost while shrinking)"])
+
+
 def search(ctx, disagreements, proof_info):
     """The oracle is the end-to-end simulation itself: an unattributed alarm is a concrete failing input."""
     tol = tolerated(ctx)
     for d in disagreements:
         if d.kind == "oracle":
+            if isinstance(d.input, dict) and d.input.get("kind") == "soc":
+                inp, alarms = shrink_soc(d.input, tol)
+                return {"input": inp, "oracle": alarms[0], "more": alarms[1:4], "how": "./check C14 --replay <this file>"}
             return {"input": d.input, "oracle": d.alarm, "how": "./check C14 --replay <this file>"}
     # correspondence or proof broke without an oracle alarm so far: look further with the oracle alone
     rng = random.Random(ctx.seed * 7919 + 14)
@@ -296,9 +346,9 @@ def search(ctx, disagreements, proof_info):
             recs = pool.map(L.soc_task, jobs, chunksize=1)
         jobs = []
         for rec in recs:
-            for tag, text in rec["alarms"]:
-                if tag is None or tag not in tol:
-                    return {"input": {"kind": "soc", "cfg": rec["cfg"], "seed": rec["seed"]}, "oracle": text}
+            if rec["verdict"] == "ok" and _bad_alarms(rec, tol):
+                inp, alarms = shrink_soc({"cfg": rec["cfg"], "seed": rec["seed"]}, tol)
+                return {"input": inp, "oracle": alarms[0], "more": alarms[1:4]}
         tmp = tempfile.mkdtemp(prefix="c14_")
         try:
             for _ in range(300):
